@@ -159,7 +159,7 @@ NOT_BUILT_REASON = "check not yet built in this snapshot (runtime-monitoring des
 EXTRA = {
     "C07": " Malformed frames include 1-3 stray octets behind the last TLV that messageLength covers.",
     "C03": " Master, slave and P2P ports driven through more than 66000 timer expirations of each kind (every originated sequence id wraps).",
-    "C01": " Full meshes (K4/K5) of boundary clocks with ports in random order; 40 % of the simulated networks run at 2^-1 / 2^-2 s announce intervals. Successions of 9-12 grandmasters on one segment (the resident clock must find each).",
+    "C01": " Full meshes (K4/K5) of boundary clocks with ports in random order; 40 % of the simulated networks run at 2^-1 / 2^-2 s announce intervals. Successions of 9-12 grandmasters on one segment (the resident clock must find each). For full meshes the structure after a fault is judged at the (16+4n)-interval bound and, where stepsRemoved is still counting up (observed despite the path-trace option), again 1200 intervals later; both are counted in the evidence.",
     "C02": " 20 % of the runs without a second master make the slave a boundary clock whose second port (P2P) was slave of a worse clock first and keeps measuring its link delay while port 1 is slave of the master. All instances of a run share a domainNumber from {0, 1, 24, 127, 255}.",
     "C04": " Messages longer than 1024 octets of every type with a TLV boundary at and around octet 1024 followed by further TLVs, complete and cut short. The versionPTP pre-filter in front of the decoder is called on every input (totality); every 0/1/2-octet buffer is enumerated.",
     "C05": " Masters announcing only every 2nd / 3rd interval (two Announces still inside the four-interval window at the deciding run). A P2P port may be disabled by a peer-delay fault right before the deciding run (excluded from the election, its decision still carries the data-set update).",
